@@ -91,6 +91,35 @@ def findField : RFields → List Char → Option RShape
   | .nil, _ => none
   | .cons n s rest, t => if n = t then some s else findField rest t
 
+/-- The optional `[index]:` of `ReadArrayFromTextStream`, after the `[` has been read:
+index token (a `size_t`), `]`, `:`.  `none` = `return false`. -/
+def readMarker (rest : List Char) : Option (Nat × List Char) :=
+  let (it, r1) := readToken rest
+  match decodeInt .u64 it with
+  | none => none
+  | some i =>
+    let (cb, r2) := readToken r1
+    if cb ≠ [']'] then none
+    else
+      let (col, r3) := readToken r2
+      if col ≠ [':'] then none else some (i.toNat, r3)
+
+/-- After an element of `ReadArrayFromTextStream`: "If there is a trailing comma, discard it.";
+`if (c != '}') return false;`; a `}` is put back (`Unread`).  `none` = `return false`. -/
+def afterElem (text : List Char) : Option (List Char) :=
+  match discardWs false text with
+  | [] => none                                      -- `if (!stream->Read(&c)) return false;`
+  | c2 :: r'' =>
+    if c2 = ',' then some r''
+    else if c2 ≠ '}' then none
+    else some (c2 :: r'')
+
+/-- The field name of the generated `UpdateFromTextStream` loop: a token, with one optional `,`
+before it skipped (`if (name == ",") ReadToken(stream, &name)`). -/
+def readFieldName (text : List Char) : List Char × List Char :=
+  let (name0, r0) := readToken text
+  if name0 = [','] then readToken r0 else (name0, r0)
+
 mutual
 /-- `view.UpdateFromTextStream(stream)`; every recursive call spends one unit of fuel. -/
 def readVal : Nat → RShape → List Char → List Char → RRes
@@ -112,49 +141,29 @@ def readElems : Nat → Nat → RShape → List Char → Nat → List Char → R
   | fuel + 1, count, elem, path, index, text =>
     match discardWs false text with
     | [] => .fail                                   -- `if (!stream->Read(&c)) return false;`
-    | '}' :: rest => .ok [] rest
     | c :: rest =>
-      -- optional `[index]:`
-      let marker : Option (Nat × List Char) :=
-        if c = '[' then
-          let (it, r1) := readToken rest
-          match decodeInt .u64 it with
-          | none => none
-          | some i =>
-            let (cb, r2) := readToken r1
-            if cb ≠ [']'] then none
-            else
-              let (col, r3) := readToken r2
-              if col ≠ [':'] then none else some (i.toNat, r3)
-        else some (index, c :: rest)
-      match marker with
-      | none => .fail
-      | some (idx, r) =>
-        if idx ≥ count then .fail
-        else match readVal fuel elem (path ++ ('[' :: natToChars idx ++ [']'])) r with
-          | .ok w1 r' =>
-            -- "If there is a trailing comma, discard it."
-            match discardWs false r' with
-            | [] => .fail
-            | c2 :: r'' =>
-              let next : Option (List Char) :=
-                if c2 = ',' then some r''
-                else if c2 ≠ '}' then none      -- `if (c != '}') return false;`
-                else some (c2 :: r'')
-              match next with
+      if c = '}' then .ok [] rest
+      else
+        -- optional `[index]:`; otherwise the character is put back and the running index is used
+        match (if c = '[' then readMarker rest else some (index, c :: rest)) with
+        | none => .fail
+        | some (idx, r) =>
+          if idx ≥ count then .fail
+          else match readVal fuel elem (path ++ ('[' :: natToChars idx ++ [']'])) r with
+            | .ok w1 r' =>
+              match afterElem r' with
               | none => .fail
               | some r3 =>
                 match readElems fuel count elem path (idx + 1) r3 with
                 | .ok w2 r4 => .ok (w1 ++ w2) r4
                 | e => e
-          | e => e
+            | e => e
 
 /-- the `for (;;)` loop of the generated `UpdateFromTextStream`. -/
 def readFields : Nat → RFields → List Char → List Char → RRes
   | 0, _, _, _ => .outOfFuel
   | fuel + 1, fields, path, text =>
-    let (name0, r0) := readToken text
-    let (name, r1) := if name0 = [','] then readToken r0 else (name0, r0)
+    let (name, r1) := readFieldName text
     if name = ['}'] then .ok [] r1
     else
       let (colon, r2) := readToken r1
